@@ -490,16 +490,27 @@ theorem lemma_cmExit (v : ExcId) (t : Tb) (x : ExcId) (s : St) :
   · exact ⟨lemma_ext_same _ _ rfl rfl, by simp⟩
   · exact ⟨lemma_ext_same _ _ rfl rfl, by simp⟩
 
+theorem lemma_deleteIfExists_ext (s : St) : Heap.ext s.heap (deleteIfExists s).1.heap := by
+  simp only [deleteIfExists]
+  split
+  · exact lemma_ext_same _ _ rfl rfl
+  · exact lemma_ext_same _ _ rfl rfl
+  · exact lemma_ext_same _ _ rfl rfl
+  · exact lemma_ext_fresh s .osError none .delete (Or.inr (Or.inl rfl))
+
 theorem lemma_callRemove_ext (rm : RemoveFn) (s : St) : Heap.ext s.heap (callRemove rm s).1.heap := by
   cases rm with
-  | default =>
-    simp only [callRemove]
-    split
-    · exact lemma_ext_same _ _ rfl rfl
-    · exact lemma_ext_same _ _ rfl rfl
-    · exact lemma_ext_fresh s .osError none .delete (Or.inr (Or.inl rfl))
+  | default => exact lemma_deleteIfExists_ext s
   | noop => exact lemma_ext_same _ _ rfl rfl
   | raises e => exact lemma_ext_same _ _ rfl rfl
+  | wrapped =>
+    simp only [callRemove]
+    have h := lemma_deleteIfExists_ext s
+    generalize deleteIfExists s = d at h ⊢
+    obtain ⟨s1, o⟩ := d
+    cases o with
+    | ok => exact h
+    | raised x => exact lemma_ext_trans h (lemma_ext_same _ _ rfl rfl)
 
 theorem lemma_rpoeExit (rm : RemoveFn) (e : ExcId) (s : St) :
     Heap.ext s.heap (rpoeExit rm e s).1.heap ∧ (rpoeExit rm e s).2 ≠ .ok := by
@@ -789,16 +800,27 @@ theorem lemma_cmExit_kept (v : ExcId) (t : Tb) (x : ExcId) (s : St) :
     Heap.kept s.heap (cmExit v t x s).1.heap := by
   simp only [cmExit]; split <;> exact lemma_kept_same _ _ rfl rfl rfl rfl
 
+theorem lemma_deleteIfExists_kept (s : St) : Heap.kept s.heap (deleteIfExists s).1.heap := by
+  simp only [deleteIfExists]
+  split
+  · exact lemma_kept_same _ _ rfl rfl rfl rfl
+  · exact lemma_kept_same _ _ rfl rfl rfl rfl
+  · exact lemma_kept_same _ _ rfl rfl rfl rfl
+  · exact lemma_kept_fresh s .osError none .delete
+
 theorem lemma_callRemove_kept (rm : RemoveFn) (s : St) : Heap.kept s.heap (callRemove rm s).1.heap := by
   cases rm with
-  | default =>
-    simp only [callRemove]
-    split
-    · exact lemma_kept_same _ _ rfl rfl rfl rfl
-    · exact lemma_kept_same _ _ rfl rfl rfl rfl
-    · exact lemma_kept_fresh s .osError none .delete
+  | default => exact lemma_deleteIfExists_kept s
   | noop => exact lemma_kept_same _ _ rfl rfl rfl rfl
   | raises e => exact lemma_kept_same _ _ rfl rfl rfl rfl
+  | wrapped =>
+    simp only [callRemove]
+    have h := lemma_deleteIfExists_kept s
+    generalize deleteIfExists s = d at h ⊢
+    obtain ⟨s1, o⟩ := d
+    cases o with
+    | ok => exact h
+    | raised x => exact lemma_kept_trans h (lemma_kept_same _ _ rfl rfl rfl rfl)
 
 theorem lemma_rpoeExit_kept (rm : RemoveFn) (e : ExcId) (s : St) :
     Heap.kept s.heap (rpoeExit rm e s).1.heap := by
@@ -1039,38 +1061,105 @@ theorem rpoe_body_completes_untouched (rm : RemoveFn) (body : Body) (c : Sre) (s
     (h : (exec body c s).out = .ok) : exec (.rpoe rm body) c s = exec body c s := by
   simp [exec, h]
 
+/-- `delete_if_exists` on anything but a directory leaves no directory entry behind: a regular file, an
+    absent path, and a symbolic link to a file, to a directory, to nothing (dangling) or to itself are all
+    gone afterwards, and nothing is raised -/
+theorem delete_if_exists_removes (s : St) (h : s.path ≠ .dir) :
+    (deleteIfExists s).2 = .ok ∧ (deleteIfExists s).1.path = .absent ∧
+    (deleteIfExists s).1.heap = s.heap ∧ (deleteIfExists s).1.log = s.log ∧
+    (deleteIfExists s).1.excInfo = s.excInfo := by
+  unfold deleteIfExists
+  cases hp : s.path with
+  | dir => exact absurd hp h
+  | absent => simp [hp]
+  | file => simp
+  | link t => simp
+
 /-- **rpoe_removes_then_reraises.**  For every body that raises an `Exception` subclass instance `e`,
-    with the default `remove` (path not a directory) or a custom one that returns: the path is removed
-    (default) and `e` — the same object — is re-raised with every traceback, `e`'s included, exactly as
-    it left the body; nothing is logged and no object is created. -/
+    with the default `remove` or a user function that delegates to `delete_if_exists` (path anything but
+    a directory: regular file, absent, symbolic link to a file / a directory / nothing / itself), or a
+    custom one that just returns: the path is removed (no directory entry left, for the first two) and
+    `e` — the same object — is re-raised with every traceback, `e`'s included, exactly as it left the
+    body; nothing is logged and no object is created. -/
 theorem rpoe_removes_then_reraises (rm : RemoveFn) (body : Body) (c : Sre) (s : St) (e : ExcId)
     (hr : (exec body c s).out = .raised e)
     (hex : ((exec body c s).st.heap.cls e).isExc = true)
-    (hrm : rm = .default ∨ rm = .noop)
-    (hdir : rm = .default → (exec body c s).st.path ≠ .dir) :
+    (hrm : rm = .default ∨ rm = .wrapped ∨ rm = .noop)
+    (hdir : rm ≠ .noop → (exec body c s).st.path ≠ .dir) :
     (exec (.rpoe rm body) c s).out = .raised e ∧
     (∀ i, (exec (.rpoe rm body) c s).st.heap.tb i = (exec body c s).st.heap.tb i) ∧
     (exec (.rpoe rm body) c s).st.log = (exec body c s).st.log ∧
-    (exec (.rpoe rm body) c s).st.path = (if rm = .default then .absent else (exec body c s).st.path) ∧
+    (exec (.rpoe rm body) c s).st.path = (if rm = .noop then (exec body c s).st.path else .absent) ∧
     (exec (.rpoe rm body) c s).st.heap.next = (exec body c s).st.heap.next ∧
     (exec (.rpoe rm body) c s).ctx = (exec body c s).ctx := by
   have hcls : ((exec body c s).st.through e .rpoeGen).heap.cls e = (exec body c s).st.heap.cls e := rfl
   simp only [exec, hr, rpoeExit, hcls, hex, if_true]
-  rcases hrm with rfl | rfl
-  · have hd := hdir rfl
-    cases hp : (exec body c s).st.path with
-    | dir => exact absurd hp hd
-    | absent =>
-      simp [callRemove, removeOut, hp, enter, capture, St.active, Sre.init, exitSre, force, raiseSaved, cmExit,
-        St.through, Heap.through, Heap.setTb]
-      intro i; by_cases hi : i = e <;> simp [hi]
-    | file =>
-      simp [callRemove, removeOut, hp, enter, capture, St.active, Sre.init, exitSre, force, raiseSaved, cmExit,
-        St.through, Heap.through, Heap.setTb]
-      intro i; by_cases hi : i = e <;> simp [hi]
-  · simp [callRemove, removeOut, enter, capture, St.active, Sre.init, exitSre, force, raiseSaved, cmExit,
-      St.through, Heap.through, Heap.setTb]
-    intro i; by_cases hi : i = e <;> simp [hi]
+  generalize hs2 : ({ (exec body c s).st.through e .rpoeGen with
+      excInfo := e :: ((exec body c s).st.through e .rpoeGen).excInfo } : St) = s2
+  have hpath : s2.path = (exec body c s).st.path := by subst hs2; rfl
+  have hact : s2.active = some e := by subst hs2; rfl
+  have hen := lemma_enter_active true s2 e hact
+  have htb : s2.heap.tb e = .rpoeGen :: (exec body c s).st.heap.tb e := by
+    subst hs2; simp [St.through, Heap.through, Heap.setTb]
+  have hoth : ∀ i, i ≠ e → s2.heap.tb i = (exec body c s).st.heap.tb i := by
+    intro i hi; subst hs2; simp [St.through, Heap.through, Heap.setTb, hi]
+  have hlog : s2.log = (exec body c s).st.log := by subst hs2; rfl
+  have hnext : s2.heap.next = (exec body c s).st.heap.next := by subst hs2; rfl
+  -- what `remove(path)` did: it returned, the heap and the log are as before, the path is as claimed
+  have hrem : (callRemove rm s2).2 = .ok ∧ (callRemove rm s2).1.heap = s2.heap ∧
+      (callRemove rm s2).1.log = s2.log ∧
+      (callRemove rm s2).1.path = (if rm = .noop then (exec body c s).st.path else .absent) := by
+    rcases hrm with rfl | rfl | rfl
+    · have hd := delete_if_exists_removes s2 (by rw [hpath]; exact hdir (by simp))
+      simp only [callRemove]
+      exact ⟨hd.1, hd.2.2.1, hd.2.2.2.1, by simpa using hd.2.1⟩
+    · have hd := delete_if_exists_removes s2 (by rw [hpath]; exact hdir (by simp))
+      simp only [callRemove]
+      generalize deleteIfExists s2 = d at hd ⊢
+      obtain ⟨s1, o⟩ := d
+      simp only at hd
+      obtain ⟨rfl, h2, h3, h4, _⟩ := hd
+      exact ⟨rfl, h3, h4, by simpa using h2⟩
+    · simp [callRemove, hpath]
+  generalize callRemove rm s2 = cr at hrem ⊢
+  obtain ⟨s3, o3⟩ := cr
+  simp only at hrem
+  obtain ⟨rfl, hh, hl, hp⟩ := hrem
+  simp only [removeOut, hen]
+  have key := sre_exit_reraises_saved .rpoeGen
+    ⟨true, some (s2.heap.cls e), some e, s2.heap.tb e⟩ s3 e rfl rfl
+  generalize exitSre .rpoeGen ⟨true, some (s2.heap.cls e), some e, s2.heap.tb e⟩ s3 .ok = ex at key ⊢
+  obtain ⟨s4, o4⟩ := ex
+  simp only at key
+  obtain ⟨rfl, k1, k2, k3, k4, k5, k6⟩ := key
+  simp only [cmExit, St.through, Heap.through, Heap.setTb, if_true]
+  refine ⟨trivial, ?_, ?_, ?_, ?_, trivial⟩
+  · intro i
+    by_cases hi : i = e
+    · simp [hi]
+    · simp [hi]; rw [k2 i hi, hh]; exact hoth i hi
+  · simp [k3, hl, hlog]
+  · simp [k4, hp]
+  · simp [k5, hh, hnext]
+
+/-- on a *directory* the default remover (and a delegating one) fails: the OSError it raises propagates,
+    the original is logged once, the directory stays -/
+theorem rpoe_directory_remove_fails (rm : RemoveFn) (body : Body) (c : Sre) (s : St) (e : ExcId)
+    (hr : (exec body c s).out = .raised e)
+    (hex : ((exec body c s).st.heap.cls e).isExc = true)
+    (he : e < (exec body c s).st.heap.next)
+    (hrm : rm = .default ∨ rm = .wrapped) (hdir : (exec body c s).st.path = .dir) :
+    (exec (.rpoe rm body) c s).out = .raised (exec body c s).st.heap.next ∧
+    (exec (.rpoe rm body) c s).st.heap.cls (exec body c s).st.heap.next = .osError ∧
+    (exec (.rpoe rm body) c s).st.log =
+      (exec body c s).st.log ++ [⟨some e, .rpoeGen :: (exec body c s).st.heap.tb e⟩] ∧
+    (exec (.rpoe rm body) c s).st.path = .dir := by
+  have hcls : ((exec body c s).st.through e .rpoeGen).heap.cls e = (exec body c s).st.heap.cls e := rfl
+  have hne : (exec body c s).st.heap.next ≠ e := fun h => by rw [h] at he; exact Nat.lt_irrefl _ he
+  simp only [exec, hr, rpoeExit, hcls, hex, if_true]
+  rcases hrm with rfl | rfl <;>
+    simp [callRemove, deleteIfExists, hdir, St.through, removeOut, enter, capture, St.active, Sre.init, exitSre,
+      cmExit, St.raiseFresh, Heap.alloc, Heap.through, Heap.setTb, hne]
 
 /-- a failing `remove` (it raises `x`, not the original): `x` propagates and the original is logged
     once, with the traceback it had inside the generator -/
@@ -1214,7 +1303,15 @@ example :
     (run true (.rpoe (.raises 1) (.raiseNew 0)) demoState).out = .raised 1 ∧
     ((exec (.raiseNew 2) (Sre.init true) demoState).st.heap.cls 2).isExc = false ∧
     (run true (.rpoe .default (.raiseNew 2)) demoState).out = .raised 2 ∧
-    (run true (.rpoe .default (.raiseNew 2)) demoState).st.path = .file := by
+    (run true (.rpoe .default (.raiseNew 2)) demoState).st.path = .file ∧
+    -- a dangling symbolic link is removed too, by the default remover and by a delegating one
+    (run true (.rpoe .default (.raiseNew 0)) { demoState with path := .link .missing }).st.path = .absent ∧
+    (run true (.rpoe .wrapped (.raiseNew 0)) { demoState with path := .link .loop }).st.path = .absent ∧
+    (run true (.rpoe .wrapped (.raiseNew 0)) { demoState with path := .link .loop }).out = .raised 0 ∧
+    -- rpoe_directory_remove_fails
+    (run true (.rpoe .wrapped (.raiseNew 0)) { demoState with path := .dir }).out = .raised 3 ∧
+    (run true (.rpoe .wrapped (.raiseNew 0)) { demoState with path := .dir }).st.heap.tb 3
+      = [.scen, .cmExit, .rpoeGen, .removeFn, .delete] := by
   decide
 
 end Oslo.Exc
